@@ -872,44 +872,92 @@ func genSync(r *Rng, long bool) ([]SOp, string) {
 	if long {
 		n = 20 + r.Intn(30)
 	}
+	nroots := 1 + r.Intn(3)
+	nsubs := 1 + r.Intn(3)
+	type ckey struct{ slot, root, sub uint64 }
+	var conKeys []ckey
+	type mkey struct{ slot, root uint64 }
+	var msgKeys []mkey
 	near := func() uint64 { return cur + uint64(r.Intn(5)) - 2 }
+	// buffer index of a slot relative to the current slot, if inside the window
+	posOf := func(slot uint64) (int, bool) {
+		switch slot {
+		case cur - 1:
+			return 0, true
+		case cur:
+			return 1, true
+		case cur + 1:
+			return 2, true
+		}
+		return 0, false
+	}
 	for i := 0; i < n; i++ {
 		switch x := r.Intn(100); {
-		case x < 30:
+		case x < 28:
 			s := near()
 			if r.Chance(80) {
 				s = cur + uint64(r.Intn(3)) - 1
 			}
-			ops = append(ops, SOp{Op: "msg", Slot: s, Root: uint64(r.Intn(3)), Val: uint64(r.Intn(5)), Sig: sig})
+			op := SOp{Op: "msg", Slot: s, Root: uint64(r.Intn(nroots)), Val: uint64(r.Intn(5)), Sig: sig}
+			msgKeys = append(msgKeys, mkey{s, op.Root})
+			ops = append(ops, op)
 			sig++
 		case x < 50:
 			s := near()
 			if r.Chance(80) {
 				s = cur + uint64(r.Intn(3)) - 1
 			}
-			ops = append(ops, SOp{Op: "contrib", Slot: s, Root: uint64(r.Intn(3)), Subnet: uint64(r.Intn(3)), Bits: BL(r.Bytes(1 + r.Intn(2))), Sig: sig})
+			op := SOp{Op: "contrib", Slot: s, Root: uint64(r.Intn(nroots)), Subnet: uint64(r.Intn(nsubs)), Bits: BL(r.Bytes(1 + r.Intn(2))), Sig: sig}
+			if len(conKeys) > 0 && r.Chance(40) { // another contribution for the same slot/root/subnet
+				k := conKeys[r.Intn(len(conKeys))]
+				op.Slot, op.Root, op.Subnet = k.slot, k.root, k.sub
+			}
+			conKeys = append(conKeys, ckey{op.Slot, op.Root, op.Subnet})
+			ops = append(ops, op)
 			sig++
-		case x < 66:
+		case x < 64:
 			s := cur + []uint64{^uint64(0) - 2, ^uint64(0) - 1, ^uint64(0), ^uint64(0), 0, 1, 1, 1, 2, 3, 7, 1 << 40}[r.Intn(12)]
 			if r.Chance(4) {
 				s = []uint64{0, ^uint64(0), r.U64()}[r.Intn(3)]
 			}
 			ops = append(ops, SOp{Op: "reset", Slot: s})
 			cur = s
-		case x < 82:
+		case x < 80:
 			var mem []uint64
 			for j := 0; j < 1+r.Intn(6); j++ {
 				mem = append(mem, uint64(r.Intn(6)))
 			}
-			ops = append(ops, SOp{Op: "select", Pos: r.Intn(3), Root: uint64(r.Intn(3)), Members: mem})
+			op := SOp{Op: "select", Pos: r.Intn(3), Root: uint64(r.Intn(nroots)), Members: mem}
+			if len(msgKeys) > 0 && r.Chance(70) {
+				k := msgKeys[len(msgKeys)-1-r.Intn(min(len(msgKeys), 4))]
+				if pos, ok := posOf(k.slot); ok {
+					op.Pos, op.Root = pos, k.root
+				}
+			}
+			ops = append(ops, op)
 		case x < 96:
-			ops = append(ops, SOp{Op: "contribs", Pos: r.Intn(3), Root: uint64(r.Intn(3)), Subnet: uint64(r.Intn(3))})
+			op := SOp{Op: "contribs", Pos: r.Intn(3), Root: uint64(r.Intn(nroots)), Subnet: uint64(r.Intn(nsubs))}
+			if len(conKeys) > 0 && r.Chance(75) {
+				k := conKeys[len(conKeys)-1-r.Intn(min(len(conKeys), 4))]
+				if pos, ok := posOf(k.slot); ok {
+					op.Pos, op.Root, op.Subnet = pos, k.root, k.sub
+				}
+			}
+			ops = append(ops, op)
 		default:
 			ops = append(ops, SOp{Op: "cur"})
 		}
 	}
+	// closing sweep: every buffer, every root (and subnet) used
 	for pos := 0; pos < 3; pos++ {
-		ops = append(ops, SOp{Op: "select", Pos: pos, Root: uint64(r.Intn(3)), Members: []uint64{0, 1, 2, 3, 4}})
+		for root := 0; root < nroots; root++ {
+			ops = append(ops, SOp{Op: "select", Pos: pos, Root: uint64(root), Members: []uint64{0, 1, 2, 3, 4}})
+			for sub := 0; sub < nsubs; sub++ {
+				if len(conKeys) > 0 {
+					ops = append(ops, SOp{Op: "contribs", Pos: pos, Root: uint64(root), Subnet: uint64(sub)})
+				}
+			}
+		}
 	}
 	ops = append(ops, SOp{Op: "cur"})
 	return ops, kind
